@@ -81,7 +81,7 @@ def run_history(inst, hist, mats, ctx, case, record_solver=True):
         if err is not None:
             res.append(err)
             break
-        bad = shape_ok(out, mats[sym])
+        bad = shape_ok(out, mats[sym], finite=False)
         if bad:
             res.append(ValueError("output " + bad))
             break
